@@ -248,6 +248,30 @@ def main(tier, seed, replay=None):
         evs += [e for lst in ex.map(run_converge, [(i % len(FAMS), seed * 1000531 + i) for i in range(n // 2)], chunksize=1) if lst for e in lst]
     traces = [{'ev': evs[i:i + 12]} for i in range(0, len(evs), 12)]
     acc, diag, res = validate_traces('TraceEnv', 'TraceEnv.cfg', traces, shards=16, timeout=3000)
+    if not replay:
+        from vlib import negative_controls
+        def c_stale(e):
+            # drop the refresh after a site write: the next read of that environment is stale
+            if e['op'] == 'coherence':
+                ev = e['events']
+                for i in range(len(ev) - 1):
+                    if ev[i][0] == 'clear' and ev[i + 1][0] == 'update':
+                        del ev[i:i + 2]
+                        return True
+        def c_sched(e):
+            if e['op'] == 'schedule' and len(e['cache']) > 4:
+                e['cache'][2], e['cache'][3] = e['cache'][3], e['cache'][2]
+                return e['cache'][2] != e['cache'][3]
+        def c_energy(e):
+            if e['op'] == 'dmrg_sweep':
+                e['E'] = e['E0'] - 10 * e['tol'] - 1000          # below the ground-state energy of the sector
+                return True
+        def c_time(e):
+            if e['op'] == 'tdvp_snapshot':
+                e['ti'] = e['ti_expected'] + 1
+                return True
+        rep.cov['parts']['negative_controls_rejected'] = negative_controls('TraceEnv', 'TraceEnv.cfg', traces, [('refresh after a site write dropped', c_stale), ('two schedule events swapped', c_sched),
+                                                                                                                 ('energy below E0', c_energy), ('snapshot start time off', c_time)], timeout=900)
     for t, rj in zip(traces, validate_traces.last_rejects):
         for l, why in rj:
             e = t['ev'][l - 1]
